@@ -111,7 +111,7 @@ def _drive(args):
             last['n'] = int(m.group(1)) if m else -1
         for e in events:
             e.pop('_exc', None)
-        out.append({'tid': tid, 'loc': True, 'strict': True, 'insts': [{'blk': blocked}], 'events': events,
+        out.append({'tid': tid, 'loc': True, 'strict': True, 'cols': [], 'insts': [{'blk': blocked}], 'events': events,
                     '_desc': '%d records, fault %s in record %d, %s, %s' % (n, kind, k, enc, 'blocked' if blocked else 'vbs'),
                     '_detail': detail, '_enc': enc})
     return out
